@@ -47,39 +47,21 @@ theorem expPieces_zero {pl : Int} (hp : 0 < pl) : expPieces 0 pl = 0 := by
   have : pl.toNat - 1 < pl.toNat := by omega
   rw [Nat.div_eq_of_lt this]; rfl
 
-theorem raiseInt_err {n : Int} {e : ErrKind} (hn : n.natAbs < 10 ^ maxStrDigits)
-    (h : (raiseInt n : Except ErrKind Unit) = .error e) : e = .metainfo := by
-  unfold raiseInt intTooBig at h
-  rw [decide_eq_false (by omega)] at h
-  simpa [throw, throwThe, MonadExceptOf.throw, eq_comm] using h
-
-theorem raiseInt_ne_ok {n : Int} : (raiseInt n : Except ErrKind Unit) ≠ .ok () := by
-  unfold raiseInt; split <;> simp [throw, throwThe, MonadExceptOf.throw]
-
-theorem raiseRepr_err {v : PyVal} {e : ErrKind} (hv : Small v)
-    (h : (raiseRepr v : Except ErrKind Unit) = .error e) : e = .metainfo := by
-  unfold raiseRepr at h
-  rw [hv.repr] at h
-  simpa [throw, throwThe, MonadExceptOf.throw, eq_comm] using h
-
-theorem raiseRepr_ne_ok {v : PyVal} : (raiseRepr v : Except ErrKind Unit) ≠ .ok () := by
-  unfold raiseRepr; split <;> simp [throw, throwThe, MonadExceptOf.throw]
-
 /-- a value that passed `(int, float)` + `is_file_length` is a non-negative whole number -/
 theorem numVal_of_fileLength {l : PyVal} (h1 : isIntOrFloat l = true) (h2 : isFileLength l = true) :
-    ∃ n, numVal? l = some n ∧ 0 ≤ n ∧ n.natAbs ≤ sumAbs l := by
+    ∃ n, numVal? l = some n ∧ 0 ≤ n := by
   cases l with
   | int i =>
     simp only [isFileLength, intVal] at h2
-    exact ⟨i, rfl, of_decide_eq_true h2, by simp [sumAbs]⟩
-  | bool b => cases b <;> simp [numVal?, sumAbs]
+    exact ⟨i, rfl, of_decide_eq_true h2⟩
+  | bool b => cases b <;> simp [numVal?]
   | float f =>
     cases f with
     | fin t integral neg =>
       simp only [isFileLength, Bool.and_eq_true, decide_eq_true_eq] at h2
       obtain ⟨hi, ht⟩ := h2
       subst hi
-      exact ⟨t, rfl, ht, by simp [sumAbs]⟩
+      exact ⟨t, rfl, ht⟩
     | _ => simp [isFileLength] at h2
   | _ => simp [isIntOrFloat, PyVal.isInt, PyVal.isFloat] at h1
 
@@ -105,56 +87,45 @@ variable (urlOk : Bytes → Bool) (fs : FsOracle)
 theorem checkSingle_cases {items info : Items} (cf : CommonFacts urlOk items info) (plen : Nat)
     (r : Except ErrKind Unit) (h : checkSingle fs (.dict items) (.dict info) plen = r) :
     (r = .ok () → SingleFacts info plen) ∧
-    (∀ e, r = .error e → Small (.dict items) → e = .metainfo) := by
+    (∀ e, r = .error e → e = .metainfo) := by
   subst h
-  have hsi : Small (.dict items) → Small (.dict info) :=
-    fun hs => hs.getItem (getItem_dict_s_some cf.hinfo)
   obtain ⟨pv, hpv, _, hpd⟩ := cf.pieceLength
   unfold checkSingle
   rw [assertType_info cf.hinfo, assertType_info cf.hinfo]
   cases h1 : assertFinal (.dict info) (.s "length") { types := isIntOrFloat, check := some isFileLength } with
   | error e1 =>
-    refine ⟨fun h => absurd h (by simp [bind, Except.bind]), fun e h hs => ?_⟩
+    refine ⟨fun h => absurd h (by simp [bind, Except.bind]), fun e h => ?_⟩
     simp only [bind, Except.bind, Except.error.injEq] at h
     subst h
-    exact assertFinal_dict_err (hsi hs) h1
+    exact assertFinal_dict_err h1
   | ok u =>
     obtain ⟨l, hl, hlp⟩ := (assertFinal_dict_ok h1).2 rfl
     simp only [passes, Bool.and_eq_true] at hlp
-    obtain ⟨len, hnum, hlen0, hlenle⟩ := numVal_of_fileLength hlp.1 hlp.2
+    obtain ⟨len, hnum, hlen0⟩ := numVal_of_fileLength hlp.1 hlp.2
     cases h2 : assertFinal (.dict info) (.s "md5sum")
         { types := PyVal.isStr, mustExist := false, check := some isMd5sum } with
     | error e2 =>
-      refine ⟨fun h => absurd h (by simp [bind, Except.bind]), fun e h hs => ?_⟩
+      refine ⟨fun h => absurd h (by simp [bind, Except.bind]), fun e h => ?_⟩
       simp only [bind, Except.bind, Except.error.injEq] at h
       subst h
-      exact assertFinal_dict_err (hsi hs) h2
+      exact assertFinal_dict_err h2
     | ok u2 =>
       simp only [bind, Except.bind, getE_ok (getItem_dict_s_some hpv),
         getE_ok (getItem_dict_s_some hl), hnum]
       have hpos := pieceLength_pos hpd
-      have hexp := expPieces_le hlen0 hpos.1
       by_cases hc : ((plen / 20 : Nat) : Int) = expPieces len (intVal pv)
       · constructor
         · intro _
           exact ⟨l, len, pv, hl, hlp.1, hlp.2, hnum, hlen0, hpv, hc⟩
-        · intro e h hs
-          have hsl : Small l := (hsi hs).getItem (getItem_dict_s_some hl)
+        · intro e h
           simp only [hc, ne_eq, not_true_eq_false, if_false, pure, Except.pure] at h
           split at h
           · split at h
             · simpa [throw, throwThe, MonadExceptOf.throw, eq_comm] using h
             · split at h
-              · exact raiseRepr_err hsl h
+              · simpa [throw, throwThe, MonadExceptOf.throw, eq_comm] using h
               · exact absurd h (by simp)
           · exact absurd h (by simp)
       · simp only [hc, ne_eq, not_false_eq_true, if_true]
-        cases hr : (raiseInt (expPieces len (intVal pv)) : Except ErrKind Unit) with
-        | ok _ => exact absurd hr raiseInt_ne_ok
-        | error e' =>
-          refine ⟨fun h => absurd h (by simp), fun e h hs => ?_⟩
-          simp only [Except.error.injEq] at h
-          subst h
-          have hsl : Small l := (hsi hs).getItem (getItem_dict_s_some hl)
-          unfold Small at hsl
-          exact raiseInt_err (by omega) hr
+        refine ⟨fun h => absurd h (by simp [throw, throwThe, MonadExceptOf.throw]), fun e h => ?_⟩
+        simpa [throw, throwThe, MonadExceptOf.throw, eq_comm] using h
